@@ -26,6 +26,10 @@
                    released - although its command is still with the controller; the late
                    response then goes to whoever is pending by then, or is dropped.
 
+     AcquireFail c like Acquire c, but putting the command on the wire RAISES (a parameter that cannot
+                   be encoded, a sink or snooper that raises): send_hci_packet is inside the try, so
+                   the `finally` runs at once - pending_* cleared, the permit released - nothing is on
+                   the wire and the caller gets the exception
      Lose          Host.on_transport_lost (fix D16k): transport_lost is set and, if a response is
                    still awaited, TransportLostError is set on the future (the owner then runs its
                    finally with response = None).  From then on a caller that acquires the semaphore
@@ -40,7 +44,7 @@ From Coq Require Import ZArith List Bool.
 Import ListNotations.
 Open Scope Z_scope.
 
-Inductive phase := WaitSem | WaitResp | Done (r : Z) | Failed | Cancelled | LostFail.
+Inductive phase := WaitSem | WaitResp | Done (r : Z) | Failed | Cancelled | LostFail | SendFail.
 Record caller := mkCaller { c_id : Z; c_op : Z; c_phase : phase }.
 
 (* an event from the controller: Command Complete?, command_opcode, num_hci_command_packets *)
@@ -66,10 +70,11 @@ Inductive label :=
 | Deliver
 | Resume (c : Z)
 | Cancel (c : Z)
-| Lose.
+| Lose
+| AcquireFail (c : Z).
 
 (* what an observer at the HCI boundary / at the awaitables sees *)
-Inductive obs := Sent (c op : Z) | Resumed (c op : Z) | AssertFailed (c : Z) | WasCancelled (c : Z) | LostFailed (c : Z).
+Inductive obs := Sent (c op : Z) | Resumed (c op : Z) | AssertFailed (c : Z) | WasCancelled (c : Z) | LostFailed (c : Z) | SendFailed (c : Z).
 
 (* the result of the future when it carries an exception instead of an event (opcodes are >= 0) *)
 Definition exc_code : Z := -1.
@@ -117,6 +122,23 @@ Definition step_opt (s : hstate) (l : label) : option (hstate * list obs) :=
           | _, _ =>
               (* `assert self.pending_command is None` fails before the try block:
                  the semaphore stays held *)
+              Some (mkH (set_phase c Failed (h_callers s)) (h_sem s - 1) (h_pending s) (h_resp s)
+                        (h_to s) (h_from s) (h_err s) (h_lost s), [AssertFailed c])
+          end
+      end
+  | AcquireFail c =>
+      if Z.leb (h_sem s) 0 then None else
+      match find_waiting c (h_callers s) with
+      | None => None
+      | Some x =>
+          if h_lost s then
+            Some (with_callers s (set_phase c LostFail (h_callers s)), [LostFailed c])
+          else
+          match h_pending s, h_resp s with
+          | None, None =>
+              (* acquire, pending set, send raises, finally: pending cleared, permit released *)
+              Some (with_callers s (set_phase c SendFail (h_callers s)), [SendFailed c])
+          | _, _ =>
               Some (mkH (set_phase c Failed (h_callers s)) (h_sem s - 1) (h_pending s) (h_resp s)
                         (h_to s) (h_from s) (h_err s) (h_lost s), [AssertFailed c])
           end
@@ -273,7 +295,7 @@ Definition quiescent_lost (s : hstate) : bool :=
   end.
 
 Definition is_done_own (x : caller) : bool :=
-  match c_phase x with Done r => Z.eqb r (c_op x) | Cancelled => true | LostFail => true | _ => false end.
+  match c_phase x with Done r => Z.eqb r (c_op x) | Cancelled | LostFail | SendFail => true | _ => false end.
 Definition all_answered (s : hstate) : bool := forallb is_done_own (h_callers s).
 
 (* progress measure: steps a caller still needs *)
@@ -287,12 +309,12 @@ Definition measure (s : hstate) : nat :=
 (* encodings for the harness *)
 Definition obs_code (o : obs) : Z * Z * Z :=
   match o with
-  | Sent c op => (0, c, op) | Resumed c op => (1, c, op) | AssertFailed c => (2, c, 0) | WasCancelled c => (3, c, 0) | LostFailed c => (4, c, 0)
+  | Sent c op => (0, c, op) | Resumed c op => (1, c, op) | AssertFailed c => (2, c, 0) | WasCancelled c => (3, c, 0) | LostFailed c => (4, c, 0) | SendFailed c => (5, c, 0)
   end.
 Definition phase_code (x : caller) : Z * Z * Z :=
   match c_phase x with
   | WaitSem => (c_id x, 0, 0) | WaitResp => (c_id x, 1, 0) | Done r => (c_id x, 2, r) | Failed => (c_id x, 3, 0)
-  | Cancelled => (c_id x, 4, 0) | LostFail => (c_id x, 5, 0)
+  | Cancelled => (c_id x, 4, 0) | LostFail => (c_id x, 5, 0) | SendFail => (c_id x, 6, 0)
   end.
 Definition accept_obs (ls : list label) :=
   match accept h_init ls with
